@@ -339,6 +339,10 @@ type Case struct {
 	Free bool `json:"free,omitempty"`
 	// CF: the program neither splits a channel nor declares a multi-name provider
 	CF bool `json:"contraction_free"`
+	// Verbose: 0 = print and log output suppressed (Quiet), 1 = `print` really writes, 2 = every log
+	// level enabled as with --verbosity 3 (what the interpreter renders for its log lines is shared
+	// state too), 3 = the same with colours. Standard output is /dev/null in the racer.
+	Verbose int `json:"verbose,omitempty"`
 }
 
 func drawCase(ch choice.Chooser) *Case {
@@ -357,6 +361,9 @@ func drawCase(ch choice.Chooser) *Case {
 	c.Strategy = ch.Intn(4)
 	c.Vec = ch.Ints(120, 16)
 	c.Free = ch.Intn(5) == 1
+	if v := ch.Intn(8); v >= 5 {
+		c.Verbose = v - 4
+	}
 	return c
 }
 
@@ -400,6 +407,13 @@ func runCase(c *Case) caseResult {
 	re.Quiet = true
 	re.ExecutionVersion = process.Execution_Version(c.Mode)
 	re.UseMonitor = c.Monitor
+	if c.Verbose >= 1 {
+		re.Quiet = false
+	}
+	if c.Verbose >= 2 {
+		env.LogLevels = []process.LogLevel{process.LOGINFO, process.LOGPROCESSING, process.LOGRULE, process.LOGRULEDETAILS}
+		re.Color = c.Verbose == 3
+	}
 	if c.Free {
 		setFree(s)
 		re.Quiet = false
@@ -727,6 +741,9 @@ func worker() {
 		}
 		if c.Free {
 			o.Extra["free_runs_through_InitializeProcesses(real timers, real print output)"]++
+		}
+		if c.Verbose >= 2 {
+			o.Extra["runs_with_every_log_level_enabled"]++
 		}
 		if n := atomic.SwapInt32(&freePanics, 0); n > 0 {
 			o.Extra["interpreter_panics_outside_the_serial_scheduler(not C13's business)"] += int(n)
